@@ -16,6 +16,9 @@ type Session struct {
 	Batch   *Batch
 	Drv     *Driver
 	cleanup func()
+	bin     string
+	memKB   int
+	deaths  int
 }
 
 func NewSession(run *evid.Run, id string) *Session {
@@ -39,6 +42,9 @@ func NewSession(run *evid.Run, id string) *Session {
 	s.Batch = b
 	return s
 }
+
+// LimitMemory makes the driver run under `ulimit -v kb` (0 = unlimited).
+func (s *Session) LimitMemory(kb int) { s.memKB = kb }
 
 func (s *Session) Close() {
 	if s.Drv != nil {
@@ -101,7 +107,8 @@ func (s *Session) Start(mustWork ...string) {
 		run.Fatal("driver does not build:\n%s", tailStr(br.Output, 4000))
 	}
 	run.Set("generate_and_build_s", time.Since(t0).Seconds())
-	drv, err := StartDriver(bin)
+	s.bin = bin
+	drv, err := StartDriverLimited(bin, s.memKB)
 	if err != nil {
 		run.Fatal("%v", err)
 	}
@@ -111,19 +118,41 @@ func (s *Session) Start(mustWork ...string) {
 // Usable: the item was accepted and its code compiles.
 func Usable(it *Item) bool { return it.Exit == 0 && it.BuildErr == "" }
 
-// Do sends requests in chunks.
+// Do sends requests in chunks. If the driver process dies (a fatal error that
+// recover cannot catch: out of memory, stack overflow, concurrent map write)
+// the request it was working on gets Panic = "driver process died: ...", the
+// driver is restarted and the remaining requests are sent.
 func (s *Session) Do(reqs []*Req) []*Resp {
 	var out []*Resp
-	for i := 0; i < len(reqs); i += 4000 {
-		j := i + 4000
+	chunk := 4000
+	for i := 0; i < len(reqs); {
+		j := i + chunk
 		if j > len(reqs) {
 			j = len(reqs)
 		}
 		r, err := s.Drv.Do(reqs[i:j])
-		if err != nil {
+		if err == nil {
+			out = append(out, r...)
+			i = j
+			continue
+		}
+		de, ok := err.(*DiedError)
+		if !ok {
 			s.Run.Fatal("driver: %v", err)
 		}
-		out = append(out, r...)
+		out = append(out, de.Done...)
+		out = append(out, &Resp{Panic: "driver process died: " + de.Stderr})
+		i += len(de.Done) + 1
+		s.deaths++
+		if s.deaths > 200 {
+			s.Run.Fatal("driver died more than 200 times; last: %s", de.Stderr)
+		}
+		s.Drv.Close()
+		d, err2 := StartDriverLimited(s.bin, s.memKB)
+		if err2 != nil {
+			s.Run.Fatal("restart driver: %v", err2)
+		}
+		s.Drv = d
 	}
 	return out
 }
